@@ -117,6 +117,9 @@ public:
       auto ptr = impl().get_raw_value();                                       \
       detail::dynamic_check(ptr != nullptr,                                    \
                             "Pointer arithmetic on a null pointer");           \
+      detail::dynamic_check(                                                   \
+        detail::ptr_offset_fits_address_space(raw_rhs, sizeof(*impl())),       \
+        "Pointer arithmetic overflowed a pointer beyond sandbox memory");      \
       /* increment the target by size of the data structure */                 \
       auto target =                                                            \
         reinterpret_cast<uintptr_t>(ptr) opSymbol raw_rhs * sizeof(*impl());   \
@@ -381,6 +384,9 @@ public:
       auto ptr = this->impl().get_raw_value();
       detail::dynamic_check(ptr != nullptr,
                             "Pointer arithmetic on a null pointer");
+      detail::dynamic_check(
+        detail::ptr_offset_fits_address_space(raw_rhs, sizeof(*this->impl())),
+        "Pointer arithmetic overflowed a pointer beyond sandbox memory");
 
       // increment the target by size of the data structure
       auto target =
